@@ -45,6 +45,8 @@ def E(t):
 
 
 def run(ctx):
+  from rules import C15 as _c15      # "root and bass move by k modulo 12" needs every spelled pitch class reduced into 0..11
+  _c15.pitch_class_wraps_both_ways(ctx, 'PASS/wrap-both-ways')
   fi = ctx.func(SL + ':transpose_note_sequence')
   res = own.check_borrowed(ctx, SL + ':transpose_note_sequence', {'ns': own.NS}, {'in_place': False}, ['ns'])
   cfi = Canon(fi, roles.discover(fi, {
